@@ -23,12 +23,22 @@ theorem pens_size_lt {st : St} {k : Nat} {p : Obj} (h : st.pens[k]? = some p) : 
 /-- A change of one pen object that keeps `refcount - appRefs` and liveness consistent. -/
 theorem SInv.set_pen {st : St} (inv : SInv st) {k : Nat} {p p' : Obj} (hk : st.pens[k]? = some p)
     (h1 : p'.freed = false → p.freed = false ∧ p'.refcount - (p'.appRefs : Int) = p.refcount - (p.appRefs : Int))
-    (h2 : p'.freed = true → holders st k = 0) :
+    (h2 : p'.freed = true → holders st k = 0) (h3 : p'.freed = false → 1 ≤ p'.refcount) :
     SInv { st with pens := st.pens.setIfInBounds k p' } := by
   have hlt := pens_size_lt hk
   have hh : ∀ (j : Nat), holders { st with pens := st.pens.setIfInBounds k p' } j = holders st j := fun j => holders_congr rfl j
-  refine ⟨inv.tinv, inv.wx_size, inv.rc, List.nodup_nil, by intro i hi; simp at hi, inv.dead_pen, ⟨?_, ?_⟩,
+  refine ⟨inv.tinv, inv.wx_size, inv.rc, List.nodup_nil, by intro i hi; simp at hi, inv.dead_pen, ⟨?_, ?_, ?_⟩,
     inv.term_held, inv.term_free, inv.term_dead, inv.rb_rc⟩
+  rotate_left 2
+  · intro j q hq hfq
+    simp only [Array.getElem?_setIfInBounds] at hq
+    by_cases hkj : k = j
+    · subst hkj
+      simp only [if_true, hlt, Option.some.injEq] at hq
+      subst hq
+      exact h3 hfq
+    · simp only [hkj, if_false] at hq
+      exact inv.pens.pos j q hq hfq
   · intro j q hq
     rw [hh]
     simp only [Array.getElem?_setIfInBounds] at hq
@@ -70,6 +80,7 @@ theorem pref_ok {st : St} (inv : SInv st) {k : Nat} (h : heldP st k = true) :
   rw [Array.setIfInBounds_setIfInBounds]
   exact inv.set_pen (p' := { refcount := p.refcount + 1, appRefs := p.appRefs + 1 }) hp
     (fun _ => ⟨hf, by show p.refcount + 1 - ((p.appRefs + 1 : Nat) : Int) = _; omega⟩) (fun h' => by cases h')
+    (fun _ => by have := inv.pens.pos k p hp hf; show 1 ≤ p.refcount + 1; omega)
 
 /-- `tickit_pen_unref` by the application. -/
 theorem punref_ok {st : St} (inv : SInv st) {k : Nat} (h : heldP st k = true) :
@@ -90,12 +101,27 @@ theorem punref_ok {st : St} (inv : SInv st) {k : Nat} (h : heldP st k = true) :
       simp only [dropped_freed, decide_eq_true_eq] at h'
       have : (holders st k : Int) = 0 := by omega
       omega)
+    (fun h' => by
+      simp only [dropped_freed, decide_eq_false_iff_not] at h'
+      simp only [dropped_refcount]
+      omega)
 
 /-- `tickit_pen_new`. -/
 theorem pen_new_ok {st : St} (inv : SInv st) : SInv { st with pens := st.pens.push {} } := by
   have hh : ∀ (j : Nat), holders { st with pens := st.pens.push {} } j = holders st j := fun j => holders_congr rfl j
-  refine ⟨inv.tinv, inv.wx_size, inv.rc, List.nodup_nil, by intro i hi; simp at hi, inv.dead_pen, ⟨?_, ?_⟩,
+  refine ⟨inv.tinv, inv.wx_size, inv.rc, List.nodup_nil, by intro i hi; simp at hi, inv.dead_pen, ⟨?_, ?_, ?_⟩,
     inv.term_held, inv.term_free, inv.term_dead, inv.rb_rc⟩
+  rotate_left 2
+  · intro j q hq hfq
+    simp only [Array.getElem?_push] at hq
+    by_cases hj : j = st.pens.size
+    · subst hj
+      simp only [if_true, Option.some.injEq] at hq
+      subst hq
+      show (1 : Int) ≤ 1
+      omega
+    · simp only [hj, if_false] at hq
+      exact inv.pens.pos j q hq hfq
   · intro j q hq
     rw [hh]
     simp only [Array.getElem?_push] at hq
@@ -209,7 +235,7 @@ theorem assignPen_ok {st : St} (inv : SInv st) {win : Nat} {ww : Win} (hw : Live
     rw [getX_setX_ne _ (Ne.symm hj)]
     unfold getX; rw [hwx1]
   refine ⟨by simp only [setX_tree, ht1]; exact inv.tinv, by simp only [setX_size, setX_tree, ht1, hwx1]; exact inv.wx_size,
-    by simp only [setX_tree, ht1]; exact inv.rc, List.nodup_nil, by intro i hi; simp at hi, ?_, ⟨?_, ?_⟩,
+    by simp only [setX_tree, ht1]; exact inv.rc, List.nodup_nil, by intro i hi; simp at hi, ?_, ⟨?_, ?_, ?_⟩,
     by simp only [setX_term, setX_tree, htm1, ht1]; exact inv.term_held,
     by simp only [setX_term, setX_tree, htm1, ht1]; exact inv.term_free,
     by simp only [setX_term, setX_tree, htm1, ht1]; exact inv.term_dead,
@@ -243,6 +269,15 @@ theorem assignPen_ok {st : St} (inv : SInv st) {win : Nat} {ww : Win} (hw : Live
     · rw [hother j (Ne.symm hkj)] at hj
       simp only [hkj, if_false, Nat.add_zero]
       exact inv.pens.ex j hj
+  · intro j q hq hfq
+    simp only [setX_pens] at hq
+    by_cases hkj : k = j
+    · subst hkj
+      rw [hk1] at hq; cases hq
+      have := inv.pens.pos k p hp hf
+      rw [hr1]; omega
+    · rw [hother j (Ne.symm hkj)] at hq
+      exact inv.pens.pos j q hq hfq
 
 /-- `tickit_window_set_pen`. -/
 theorem setPen_ok {st : St} (inv : SInv st) {win : Nat} {ww : Win} (hw : LiveW st.tree win ww) (pen : Option Nat)
@@ -299,7 +334,7 @@ theorem SInv.set_term {st : St} (inv : SInv st) (tm : Obj)
     (h2 : tm.freed = false → (¬ ∃ r, LiveW st.tree 0 r) → tm.refcount = (tm.appRefs : Int) ∧ 1 ≤ tm.refcount)
     (h3 : tm.freed = true → ¬ ∃ r, LiveW st.tree 0 r) : SInv { st with term := tm } := by
   refine ⟨inv.tinv, inv.wx_size, inv.rc, List.nodup_nil, by intro i hi; simp at hi, inv.dead_pen,
-    ⟨inv.pens.rc, inv.pens.ex⟩, ?_, ?_, ?_, inv.rb_rc⟩
+    ⟨inv.pens.rc, inv.pens.ex, inv.pens.pos⟩, ?_, ?_, ?_, inv.rb_rc⟩
   · intro hf h; exact h1 hf (by rcases h with h | h; exact h; simp at h)
   · intro hf h; exact h2 hf (fun h' => h (.inl h'))
   · intro hf h; exact h3 hf (by rcases h with h | h; exact h; simp at h)
@@ -361,7 +396,7 @@ theorem heldB_spec {st : St} {k : Nat} (h : heldB st k = true) : ∃ b, st.rbs[k
 theorem SInv.set_rb {st : St} (inv : SInv st) (k : Nat) (b' : RBObj) (h : b'.freed = false → 1 ≤ b'.refcount) :
     SInv { st with rbs := st.rbs.setIfInBounds k b' } := by
   refine ⟨inv.tinv, inv.wx_size, inv.rc, List.nodup_nil, by intro i hi; simp at hi, inv.dead_pen,
-    ⟨inv.pens.rc, inv.pens.ex⟩, inv.term_held, inv.term_free, inv.term_dead, ?_⟩
+    ⟨inv.pens.rc, inv.pens.ex, inv.pens.pos⟩, inv.term_held, inv.term_free, inv.term_dead, ?_⟩
   intro j b hb hf
   simp only [Array.getElem?_setIfInBounds] at hb
   by_cases hkj : k = j
@@ -375,11 +410,11 @@ theorem SInv.set_rb {st : St} (inv : SInv st) (k : Nat) (b' : RBObj) (h : b'.fre
 
 theorem SInv.set_penx {st : St} (inv : SInv st) (x : Array PenX) : SInv { st with penx := x } :=
   ⟨inv.tinv, inv.wx_size, inv.rc, List.nodup_nil, by intro i hi; simp at hi, inv.dead_pen,
-    ⟨inv.pens.rc, inv.pens.ex⟩, inv.term_held, inv.term_free, inv.term_dead, inv.rb_rc⟩
+    ⟨inv.pens.rc, inv.pens.ex, inv.pens.pos⟩, inv.term_held, inv.term_free, inv.term_dead, inv.rb_rc⟩
 
 theorem SInv.set_strs {st : St} (inv : SInv st) (s : Array StrObj) : SInv { st with strs := s } :=
   ⟨inv.tinv, inv.wx_size, inv.rc, List.nodup_nil, by intro i hi; simp at hi, inv.dead_pen,
-    ⟨inv.pens.rc, inv.pens.ex⟩, inv.term_held, inv.term_free, inv.term_dead, inv.rb_rc⟩
+    ⟨inv.pens.rc, inv.pens.ex, inv.pens.pos⟩, inv.term_held, inv.term_free, inv.term_dead, inv.rb_rc⟩
 
 theorem rbUpd_ok {st : St} (inv : SInv st) (k : Nat) (f : RBObj → Out RBObj)
     (hf : ∀ b, ∃ b', f b = .ok b' ∧ b'.freed = b.freed ∧ b'.refcount = b.refcount) :
@@ -450,11 +485,12 @@ theorem SInv.init (lines cols : Int) :
     · intro s hs; cases hs
   have hroot : ∃ r, LiveW ({ wins := #[({ rect := ⟨0, 0, lines, cols⟩, isRoot := true } : Win)], root := {} } : Tree) 0 r :=
     ⟨{ rect := ⟨0, 0, lines, cols⟩, isRoot := true }, by simp, rfl⟩
-  refine ⟨tinv, rfl, ?_, List.nodup_nil, by intro i hi; simp at hi, ?_, ⟨?_, ?_⟩, ?_, ?_, ?_, ?_⟩
+  refine ⟨tinv, rfl, ?_, List.nodup_nil, by intro i hi; simp at hi, ?_, ⟨?_, ?_, ?_⟩, ?_, ?_, ?_, ?_⟩
   · intro i w hl; obtain ⟨_, rfl⟩ := hlive i w hl; show (1 : Int) ≤ 1; omega
   · intro i w h hf _; obtain ⟨_, rfl⟩ := hget i w h; cases hf
   · intro k p hk; simp at hk
   · intro k _; simp [holders]
+  · intro k p hk; simp at hk
   · intro _ _; rfl
   · intro _ h; exact absurd (.inl hroot) h
   · intro h; cases h
@@ -662,7 +698,7 @@ theorem step_plain_ok {cfg : Cfg} (R : Repaired cfg) {st : St} (inv : SInv st) (
     refine ⟨_, _, rfl, ?_⟩
     unfold rbNew
     refine ⟨inv.tinv, inv.wx_size, inv.rc, List.nodup_nil, by intro i hi; simp at hi, inv.dead_pen,
-      ⟨inv.pens.rc, inv.pens.ex⟩, inv.term_held, inv.term_free, inv.term_dead, ?_⟩
+      ⟨inv.pens.rc, inv.pens.ex, inv.pens.pos⟩, inv.term_held, inv.term_free, inv.term_dead, ?_⟩
     intro j b hb hf
     simp only [Array.getElem?_push] at hb
     split at hb
